@@ -397,6 +397,15 @@ def optional_only(ver, rng, n):
     return out
 
 
+# prefixes tried in place of the right one (other versions, near misses, digits of other scripts / superscripts / circled
+# digits - characters for which str.isdigit() / int() / float() / \\d disagree)
+PREFIX_EDITS = ["CVSS:3.0/", "CVSS:3.1/", "CVSS:4.0/", "CVSS:3.2/", "CVSS:2.0/", "cvss:3.1/",
+                "CVSS:3.1", "CVSS:4.0", "CVSS:3.10/", "", "CVSS:4.1/", "CVSS:3.0/CVSS:3.1/", "CVSS:3.01/", "CVSS:3.+1/",
+                "CVSS:3. 1/", "CVSS:03.1/", "CVSS:3.1\n/", "CVSS:4.00/", "CVSS:4.+0/", "CVSS:4/", "CVSS:3/", "CVSS:\uff13.1/",
+                "CVSS:3.\u0661/", "cVSS:3.1/", "CVSS:3,1/", "CVSS:3.1//", "CVSS:3.\u00b9/", "CVSS:3.\u00b2/", "CVSS:3.\u2460/", "CVSS:3.\u2070/",
+                "CVSS:3.\u09e7/", "CVSS:4.\u0660/", "CVSS:4.\u2070/", "CVSS:3.\u00bd/", "CVSS:3.\u2081/", "CVSS:3.1\u0000/", "CVSS:3.-1/",
+                "CVSS:3.1e0/", "CVSS:3._1/", "CVSS:3.1_/", "CVSS:0x3.1/", "CVSS:3.1 /", " CVSS:3.1/", "CVSS:3.9/", "CVSS:5.0/", "CVSS:1.0/"]
+
 ALPHABET = "AVCNLHPXSEMRUITDOFWY:/.0123456789 acnlx_-\t"
 
 
@@ -440,10 +449,7 @@ def edit(s, rng, ver):
         for p in sum(PREFIX.values(), []):
             if p and s.startswith(p):
                 body = s[len(p) :]
-        return rng.choice(["CVSS:3.0/", "CVSS:3.1/", "CVSS:4.0/", "CVSS:3.2/", "CVSS:2.0/", "cvss:3.1/",
-                           "CVSS:3.1", "CVSS:4.0", "CVSS:3.10/", "", "CVSS:4.1/", "CVSS:3.0/CVSS:3.1/", "CVSS:3.01/", "CVSS:3.+1/",
-                           "CVSS:3. 1/", "CVSS:03.1/", "CVSS:3.1\n/", "CVSS:4.00/", "CVSS:4.+0/", "CVSS:4/", "CVSS:3/", "CVSS:３.1/",
-                           "CVSS:3.١/", "cVSS:3.1/", "CVSS:3,1/", "CVSS:3.1//"]) + body
+        return rng.choice(PREFIX_EDITS) + body
     if kind == 10 and len(fields) > 1:  # empty a field / break the separator of a field
         i = rng.randrange(len(fields))
         fields[i] = rng.choice(["", fields[i].replace(":", ""), fields[i] + ":", ":" + fields[i],
@@ -457,7 +463,7 @@ def edit(s, rng, ver):
         return "/".join(fields)
     if kind == 12:  # non-ASCII / exotic character
         i = rng.randrange(len(s) + 1)
-        return s[:i] + rng.choice(["\u00e9", "\u0661", "\uff21", "\u2028", "\x00", "\x85", "\U0001f600"]) + s[i:]
+        return s[:i] + rng.choice(["\u00e9", "\u0661", "\uff21", "\u2028", "\x00", "\x85", "\U0001f600", "\u00b2", "\u2460", "\u09e9", "\u0130", "\u212a"]) + s[i:]
     if kind == 13 and len(fields) > 1:  # explicit Not Defined on a mandatory metric
         i = rng.randrange(len(fields))
         fields[i] = fields[i].split(":")[0] + ":" + VOCAB[ver]["nd"]
